@@ -38,17 +38,22 @@ def run(F, run, tier):
             run.broken(rule, "Polynomial::" + name, inst, F.loc(M[name], u.node if isinstance(u.node, dict) else None), str(u))
         return None, False
 
-    for n in range(1, L + 1):
-        a = PI.symbols("a", n)
+    cx = lambda nm: sp.Symbol(nm + "r", real=True) + sp.I * sp.Symbol(nm + "i", real=True)
+    real_cfg = (x, lo, hi, mid, C)
+    cplx_cfg = (cx("x"), cx("lo"), cx("hi"), cx("mid"), cx("C"))
+    for n, kind in [(n, "real") for n in range(1, L + 1)] + [(3, "complex"), (4, "complex")]:
+        # the complex configuration (coefficients, abscissa, constants with generic real and imaginary parts) exposes a dropped or conjugated part
+        a = PI.symbols("a", n) if kind == "real" else PI.csymbols("a", n)
+        x, lo, hi, mid, C = real_cfg if kind == "real" else cplx_cfg
         P = lambda: PI.poly(list(a))
-        inst = "len=%d" % n
+        inst = "len=%d" % n if kind == "real" else "complex,len=%d" % n
         v, ok = call("evaluate", [P(), x], inst, "R13.2")
         if ok:
             run.check(sym.is_zero(v - poly_expr(a, x)), "R13.2", "Polynomial::evaluate", "horner:" + inst, F.loc(M["evaluate"]),
                       "evaluate(x) = %s is not Σ c_k x^k" % sp.expand(v), sample="%s: evaluate = Σ c_k x^k" % inst)
         v, ok = call("evaluate_derivative", [P(), x], inst, "R13.2")
         if ok:
-            good = isinstance(v, tuple) and len(v) == 2 and sym.is_zero(v[0] - poly_expr(a, x)) and sym.is_zero(v[1] - sp.diff(poly_expr(a, x), x))
+            good = isinstance(v, tuple) and len(v) == 2 and sym.is_zero(v[0] - poly_expr(a, x)) and sym.is_zero(v[1] - sum(k * c * x ** (k - 1) for k, c in enumerate(a) if k >= 1))
             run.check(good, "R13.2", "Polynomial::evaluate_derivative", "value+derivative:" + inst, F.loc(M["evaluate_derivative"]),
                       "evaluate_derivative(x) = %s is not (p(x), p'(x))" % (tuple(sp.expand(t) for t in v) if isinstance(v, tuple) else v,),
                       sample="%s: (p, p')" % inst)
@@ -68,8 +73,9 @@ def run(F, run, tier):
                           "derivative(antiderivative(p)) != p")
         v, ok = call("integrate", [P(), lo, hi], inst, "R13.3")
         if ok:
-            Fx = sp.integrate(poly_expr(a, x), x)
-            run.check(sym.is_zero(v - (Fx.subs(x, hi) - Fx.subs(x, lo))), "R13.3", "Polynomial::integrate", "F(b)-F(a):" + inst, F.loc(M["integrate"]),
+            ZZ = sp.Symbol("ZZ")
+            Fx = sum(c * ZZ ** (k + 1) / (k + 1) for k, c in enumerate(a))
+            run.check(sym.is_zero(v - (Fx.subs(ZZ, hi) - Fx.subs(ZZ, lo))), "R13.3", "Polynomial::integrate", "F(b)-F(a):" + inst, F.loc(M["integrate"]),
                       "integrate(lo, hi) = %s is not F(hi) − F(lo)" % sp.expand(v), sample="%s: ∫ = F(hi) − F(lo)" % inst)
             v2, ok2 = call("integrate", [P(), lo, mid], inst, "R13.3")
             v3, ok3 = call("integrate", [P(), mid, hi], inst, "R13.3")
